@@ -43,6 +43,17 @@ def configs(tier):
                                        ri=ri, m=mk, n1=n1, n2=n2, fork=True, validate=3,
                                        cost=9 ** (n1 + n2) * (2 if mk == "sym" else 1),
                                        split_forks=(8 if n1 + n2 >= 3 else None))
+        # (a'') two trains, symbolic averaging sub-interval (scalar route vs profile.avrg(interval))
+        for n1 in range(3):
+            for n2 in range(3):
+                if n1 + n2 > 3:
+                    continue
+                for meas in ("isi", "sync", "spike"):
+                    if meas == "spike" and n1 + n2 > 2:
+                        continue
+                    yield dict(name="sub-%s-%s-%d+%d" % (be, meas, n1, n2), what="sub", backend=be, meas=meas, n1=n1, n2=n2,
+                               fork=(meas == "spike"), validate=3, cost=30 * 6 ** (n1 + n2),
+                               split_forks=(7 if n1 + n2 >= 3 else None))
         # (a') three trains, MRTS='auto': the multivariate scalar (mean of pair values, pooled
         # threshold) must equal the average of the multivariate profile with the same keyword
         for ns in ((1, 1, 1), (1, 0, 1), (2, 1, 0)) + (((2, 1, 1), (2, 2, 0)) if not q else ()):
@@ -86,6 +97,8 @@ def program(E, cfg):
         return multi(E, cfg)
     if what == "auto3":
         return auto3(E, cfg)
+    if what == "sub":
+        return sub(E, cfg)
     ts, te = hx.edges(E)
     s1 = hx.spikes(E, "a", cfg["n1"], ts, te)
     s2 = hx.spikes(E, "b", cfg["n2"], ts, te)
@@ -131,6 +144,47 @@ def program(E, cfg):
         E.prove(E.eq(F, o.avrg()), "spike_train_order = spike_train_order_profile.avrg()")
         if cfg["n1"] + cfg["n2"] > 0:
             E.prove(E.eq(F * sum(o.mp[1:-1]), sum(o.y[1:-1])), "spike_train_order = summed values / summed multiplicities")
+
+
+def sub(E, cfg):
+    ts, te = hx.edges(E)
+    s1 = hx.spikes(E, "a", cfg["n1"], ts, te)
+    s2 = hx.spikes(E, "b", cfg["n2"], ts, te)
+    a = hx.train(s1, ts, te)
+    b = hx.train(s2, ts, te)
+    u = E.fresh("u")
+    w = E.fresh("w")
+    E.assume(u >= ts)
+    E.assume(w <= te)
+    E.assume(u < w)
+    iv = (u, w)
+    with hx.quiet():
+        if cfg["meas"] == "isi":
+            d = pyspike.isi_distance(a, b, interval=iv)
+            p = pyspike.isi_profile(a, b)
+            E.observe("d", d)
+            E.prove(E.eq(d, p.avrg(iv)), "isi_distance(interval) = isi_profile.avrg(interval)")
+        elif cfg["meas"] == "spike":
+            d = pyspike.spike_distance(a, b, interval=iv)
+            p = pyspike.spike_profile(a, b)
+            E.observe("d", d)
+            E.prove(E.eq(d, p.avrg(iv)), "spike_distance(interval) = spike_profile.avrg(interval)")
+        else:
+            v = pyspike.spike_sync(a, b, interval=iv)
+            p = pyspike.spike_sync_profile(a, b)
+            E.observe("sync", v)
+            E.prove(E.eq(v, p.avrg(iv)), "spike_sync(interval) = spike_sync_profile.avrg(interval)")
+            # values / multiplicities of the events strictly inside, 1 if there is none
+            tot = 0
+            mult = 0
+            for k in range(1, len(p.x) - 1):
+                if p.x[k] > u and p.x[k] < w:
+                    tot = tot + p.y[k]
+                    mult = mult + p.mp[k]
+            if mult == 0:
+                E.prove(E.eq(v, 1.0), "SPIKE-Sync is 1 when no spike falls into the averaging interval")
+            else:
+                E.prove(E.eq(v * mult, tot), "spike_sync(interval) = summed values / summed multiplicities inside the interval")
 
 
 def auto3(E, cfg):
